@@ -33,6 +33,8 @@ Definition body_parts : list stmt := Eval cbv [flatten_seq loop_body app] in fla
 #[local] Arguments Qminus : simpl never.
 #[local] Arguments qbool : simpl never.
 #[local] Arguments qmax : simpl never.
+#[local] Arguments zrange : simpl never.
+#[local] Arguments tab2 : simpl never.
 
 Ltac ext_rw := rewrite ?E_item, ?E_int, ?E_gt, ?E_any, ?E_shape, ?E_add_size, ?E_device, ?E_empty_dev, ?E_clamp_min,
   ?E_clamp_min_, ?E_bern, ?E_sub_tt, ?E_sub_ts, ?E_numel, ?E_T.
@@ -161,4 +163,194 @@ Section Run.
       step ltac:(rewrite (E_setrow _ _ _ _ _ _ _ _ Hk)).
       step idtac. step idtac. reflexivity.
   Qed.
+
+  (* ---- the loop over integer counts -------------------------------------------------------------------------- *)
+  Definition b2z (b : bool) : Z := if b then 1%Z else 0%Z.
+  Definition zsub (ells : list Z) (bits : list bool) : list Z := map (fun eb => (fst eb - b2z (snd eb))%Z) (combine ells bits).
+  Definition zdec (trems : list Z) : list Z := map (fun t => Z.max (t - 1) 1) trems.
+  (* the draws of step k: the oracle sees the whole vector of probabilities remainder_ell / remainder_t *)
+  Definition draw (k : nat) (ells trems : list Z) : list bool :=
+    map (orc k (step_p (zinj ells) (zinj trems))) (seq 0 (List.length (step_p (zinj ells) (zinj trems)))).
+
+  (* the rows b_k, b_(k+1), ... the loop writes, from counts ells / trems before step k *)
+  Fixpoint bloop (k s : nat) (ells trems : list Z) : list (list bool) :=
+    match s with
+    | O => []
+    | S s' => draw k ells trems :: bloop (S k) s' (zsub ells (draw k ells trems)) (zdec trems)
+    end.
+
+  Fixpoint write (N k : nat) (rows : list (list Q)) (D : list Q) : list Q :=
+    match rows with [] => D | r :: rs => write N (S k) rs (step_D k N D r) end.
+
+  Lemma step_b_draw : forall k ells trems, step_b k (step_p (zinj ells) (zinj trems)) = map qbool (draw k ells trems).
+  Proof. intros. unfold step_b, draw. now rewrite map_map. Qed.
+
+  Lemma step_E_z : forall ells bits, step_E (zinj ells) (map qbool bits) = zinj (zsub ells bits).
+  Proof.
+    intros. unfold step_E, zinj, zsub. rewrite map2_maps, map_map. apply map_ext. intros [e b]. cbn [fst snd].
+    rewrite qbool_z. apply Qred_z_minus.
+  Qed.
+
+  Lemma step_R_z : forall trems, step_R (zinj trems) = zinj (zdec trems).
+  Proof.
+    intros. unfold step_R, zinj, zdec. rewrite !map_map. apply map_ext. intros t. now rewrite Qred_z_minus, qmax_z.
+  Qed.
+
+  Lemma nozero_z : forall trems, Forall (fun t => (1 <= t)%Z) trems -> existsb (fun q => Qeq_bool q 0) (zinj trems) = false.
+  Proof.
+    intros trems H. unfold zinj. rewrite existsb_map'. induction H as [|t l Ht _ IH]; [reflexivity|]. cbn [existsb].
+    rewrite IH, orb_false_r. change 0%Q with (inject_Z 0). rewrite Qeq_bool_z. apply Z.eqb_neq. lia.
+  Qed.
+
+  Lemma zdec_ge1 : forall trems, Forall (fun t => (1 <= t)%Z) (zdec trems).
+  Proof. intros. unfold zdec. apply Forall_forall. intros x Hx. apply in_map_iff in Hx. destruct Hx as [t [<- _]]. lia. Qed.
+
+  Lemma loop_run : forall out s k D ells trems tail evs,
+    tail_ok tail -> (k + s = Z.to_nat (oeff out))%nat -> List.length evs = k -> Forall (fun t => (1 <= t)%Z) trems ->
+    exists E' R' tail' evs',
+      for_loop ext "t" loop_body (map (fun i => VInt (Z.of_nat i)) (seq k s)) (st_loop out D (zinj ells) (zinj trems) tail evs)
+      = Ok CNormal (st_loop out (write (numel sh) k (map (map qbool) (bloop k s ells trems)) D) E' R' tail' evs').
+  Proof.
+    intros out s. induction s as [|s IH]; intros k D ells trems tail evs Ht Hk He Hr.
+    - do 4 eexists. reflexivity.
+    - cbn [seq map for_loop bloop write].
+      rewrite body_step; [|assumption|lia|now apply nozero_z]. cbn [bind].
+      rewrite He, step_b_draw, step_E_z, step_R_z, Nat2Z.id.
+      apply IH; [right; do 3 eexists; reflexivity|lia|rewrite app_length; cbn [List.length]; lia|apply zdec_ge1].
+  Qed.
+
+  Lemma zrange_nat : forall o, zrange 0 o = map (fun i => VInt (Z.of_nat i)) (seq 0 (Z.to_nat o)).
+  Proof. intros. unfold zrange. rewrite Z.sub_0_r. reflexivity. Qed.
+
+  Lemma loop_stmt_run : forall out D ells trems, Forall (fun t => (1 <= t)%Z) trems ->
+    exists E' R' tail' evs',
+      exec ext loop_stmt (st_loop out D (zinj ells) (zinj trems) [] [])
+      = Ok CNormal (st_loop out (write (numel sh) 0 (map (map qbool) (bloop 0 (Z.to_nat (oeff out)) ells trems)) D) E' R' tail' evs').
+  Proof.
+    intros out D ells trems Hr. unfold loop_stmt. fold loop_body. rewrite exec_for.
+    unfold st_loop at 1. cbn. rewrite zrange_nat.
+    apply (loop_run out (Z.to_nat (oeff out)) 0%nat D ells trems [] []); [now left|reflexivity|reflexivity|assumption].
+  Qed.
+
+  (* ---- the return statement: view / .T / view ------------------------------------------------------------------- *)
+  Definition ret_stmt : stmt := Eval cbv [parts nth] in nth 11 parts SPass.
+
+  Lemma ret_run : forall out D E R tail evs, (0 <= oeff out)%Z -> List.length D = (Z.to_nat (oeff out) * numel sh)%nat ->
+    exec ext ret_stmt (st_loop out D E R tail evs) =
+    Ok (CReturn (tv (sh ++ [Z.to_nat (oeff out)])
+                    (tdata (tab2 (numel sh) (Z.to_nat (oeff out)) (fun i j => nth (j * numel sh + i) D 0%Q)))))
+       (st_loop out D E R tail evs).
+  Proof.
+    intros out D E R tail evs Hpos HD. unfold ret_stmt, st_loop. cbn [app]. run1.
+    rewrite E_view2; [|assumption|lia|rewrite Nat2Z.id; symmetry; exact HD]. rewrite Nat2Z.id. run1.
+    rewrite (E_Size _ _ _ _ Hpos). run1.
+    rewrite E_view_sz; [reflexivity|]. rewrite numel_app, length_tab2. unfold numel at 2. cbn [fold_right]. lia.
+  Qed.
+
+  (* ---- what the loop leaves in b ---------------------------------------------------------------------------------- *)
+  Lemma draw_length : forall k ells trems, List.length ells = List.length trems -> List.length (draw k ells trems) = List.length ells.
+  Proof.
+    intros. unfold draw, step_p, zinj. rewrite map_length, seq_length, map2_length; rewrite !map_length; auto.
+  Qed.
+
+  Lemma zsub_length : forall ells bits, List.length ells = List.length bits -> List.length (zsub ells bits) = List.length ells.
+  Proof. intros. unfold zsub. rewrite map_length, combine_length. lia. Qed.
+
+  Lemma bloop_rows : forall s k ells trems N, List.length ells = N -> List.length trems = N ->
+    List.length (bloop k s ells trems) = s /\ Forall (fun r => List.length r = N) (bloop k s ells trems).
+  Proof.
+    induction s as [|s IH]; intros k ells trems N He Hr; cbn [bloop]; [split; [reflexivity|constructor]|].
+    assert (Hd : List.length (draw k ells trems) = N) by (rewrite draw_length; congruence).
+    destruct (IH (S k) (zsub ells (draw k ells trems)) (zdec trems) N) as [H1 H2].
+    - rewrite zsub_length; congruence.
+    - unfold zdec. now rewrite map_length.
+    - split; [cbn [List.length]; now rewrite H1|constructor; assumption].
+  Qed.
+
+  Lemma write_spec : forall N rows k D, Forall (fun r => List.length r = N) rows ->
+    List.length D = ((k + List.length rows) * N)%nat -> write N k rows D = firstn (k * N) D ++ List.concat rows.
+  Proof.
+    intros N rows. induction rows as [|r rs IH]; intros k D Hf HD; cbn [write List.concat].
+    - rewrite app_nil_r. symmetry. apply firstn_all2. cbn [List.length] in HD. lia.
+    - inversion Hf as [|? ? Hr Hrs]; subst. cbn [List.length] in HD.
+      assert (Hfl : List.length (firstn (k * List.length r) D) = (k * List.length r)%nat) by (rewrite firstn_length; nia).
+      rewrite IH; [|assumption|].
+      + unfold step_D. rewrite app_assoc.
+        rewrite firstn_app. replace (S k * List.length r - List.length (firstn (k * List.length r) D ++ r))%nat with 0%nat
+          by (rewrite app_length, Hfl; lia).
+        cbn [firstn]. rewrite app_nil_r. rewrite firstn_all2 by (rewrite app_length, Hfl; lia).
+        now rewrite <- app_assoc.
+      + unfold step_D. rewrite !app_length, Hfl, skipn_length. nia.
+  Qed.
+
+  Lemma nth_concat_rows : forall N (rows : list (list Q)) t n, Forall (fun r => List.length r = N) rows ->
+    (t < List.length rows)%nat -> (n < N)%nat -> nth (t * N + n) (List.concat rows) 0%Q = nth n (nth t rows []) 0%Q.
+  Proof.
+    intros N rows t n Hf Ht Hn. rewrite <- (map_id rows) at 1. rewrite <- flat_map_concat_map.
+    rewrite (nth_flat_map_const (fun r : list Q => r) rows N t n [] 0%Q); [reflexivity| |assumption|assumption].
+    intros a Ha. rewrite Forall_forall in Hf. now apply Hf.
+  Qed.
+
+  Lemma clamp1_z : forall totals', map (qmax (inject_Z 1)) (zinj totals') = zinj (map (fun t => Z.max t 1) totals').
+  Proof. intros. unfold zinj. rewrite !map_map. apply map_ext. intros t. apply qmax_z. Qed.
+
+  (* ---- the whole body, no guard fires ------------------------------------------------------------------------------- *)
+  Definition result_data (N O : nat) (bits : list (list bool)) : list Q :=
+    tdata (tab2 N O (fun n t => qbool (nth n (nth t bits []) false))).
+
+  Theorem srswor_run_ok : forall out,
+    List.length totals = numel sh -> List.length givens = numel sh ->
+    over totals givens = false -> (tmax <= oeff out)%Z -> (0 <= oeff out)%Z ->
+    exists st, Interp.run ext srswor_body (srswor_vars (mkTens s1 d1) (mkTens s2 d2) out) =
+      Ok (tv (sh ++ [Z.to_nat (oeff out)])
+             (result_data (numel sh) (Z.to_nat (oeff out))
+                (bloop 0 (Z.to_nat (oeff out)) givens (map (fun t => Z.max t 1) totals)))) st.
+  Proof.
+    intros out Ht Hg Hov Hout Hpos. rewrite run_flatten. change (flatten_seq srswor_body) with parts.
+    change parts with (firstn 10 parts ++ [loop_stmt; ret_stmt]).
+    change (mkState (srswor_vars (mkTens s1 d1) (mkTens s2 d2) out) []) with (st0 out).
+    rewrite (head_ok out _ Hov Hout Hpos). rewrite clamp1_z.
+    set (O := Z.to_nat (oeff out)). set (N := numel sh).
+    set (trems := map (fun t => Z.max t 1) totals).
+    assert (Htr : Forall (fun t => (1 <= t)%Z) trems).
+    { unfold trems. apply Forall_forall. intros x Hx. apply in_map_iff in Hx. destruct Hx as [t [<- _]]. lia. }
+    destruct (loop_stmt_run out (map junk (seq 0 (numel (O :: sh)))) givens trems Htr) as [E' [R' [tail' [evs' HL]]]].
+    erewrite exec_list_cons_ok by exact HL. fold O N.
+    destruct (bloop_rows O 0 givens trems N Hg) as [Hlen Hrows]; [unfold trems; now rewrite map_length|].
+    set (bits := bloop 0 O givens trems) in *.
+    assert (Hq : Forall (fun r => List.length r = N) (map (map qbool) bits)).
+    { apply Forall_forall. intros r Hr. apply in_map_iff in Hr. destruct Hr as [b [<- Hb]]. rewrite map_length.
+      rewrite Forall_forall in Hrows. now apply Hrows. }
+    rewrite write_spec; [|assumption|rewrite !map_length, seq_length, numel_cons, Hlen; fold N; lia].
+    change (0 * N)%nat with 0%nat. cbn [firstn app].
+    erewrite exec_list_cons_ret.
+    2:{ apply ret_run; [assumption|]. fold O N.
+        rewrite (length_concat_uniform _ N) by assumption. now rewrite map_length, Hlen. }
+    eexists. unfold result_data. fold O N.
+    match goal with |- Ok (tv _ (tdata ?a)) _ = Ok (tv _ (tdata ?b)) _ => assert (EQ : a = b) end; [|rewrite EQ; reflexivity].
+    apply tab2_ext. intros n t Hn Ht'.
+    rewrite nth_concat_rows; [|assumption|rewrite map_length; lia|assumption].
+    change (@nil Q) with (map qbool []). rewrite map_nth. change 0%Q with (qbool false). now rewrite map_nth.
+  Qed.
+
+  (* ---- the two RuntimeError guards ------------------------------------------------------------------------------------ *)
+  Theorem srswor_run_raises : forall out, over totals givens = true \/ (oeff out < tmax)%Z ->
+    exists st, Interp.run ext srswor_body (srswor_vars (mkTens s1 d1) (mkTens s2 d2) out) = Exc "RuntimeError" st.
+  Proof.
+    intros out H. rewrite run_flatten. change (flatten_seq srswor_body) with parts.
+    change parts with (firstn 10 parts ++ [loop_stmt; ret_stmt]).
+    change (mkState (srswor_vars (mkTens s1 d1) (mkTens s2 d2) out) []) with (st0 out).
+    destruct (over totals givens) eqn:Hov.
+    - destruct (head_raise_over out [loop_stmt; ret_stmt] Hov) as [st Hst]. rewrite Hst. now exists st.
+    - destruct H as [H|H]; [discriminate|].
+      destruct (head_raise_out out [loop_stmt; ret_stmt] Hov H) as [st Hst]. rewrite Hst. now exists st.
+  Qed.
 End Run.
+
+(* total_count without elements: torch's max() raises, before anything else is looked at *)
+Theorem srswor_run_empty : forall orc junk s1 s2 d2 out,
+  exists st, Interp.run (ext19 orc junk) srswor_body (srswor_vars (mkTens s1 []) (mkTens s2 d2) out) = Exc "RuntimeError" st.
+Proof.
+  intros. rewrite run_flatten. change (flatten_seq srswor_body) with parts. unfold parts, srswor_vars. rewrite !enc_tv.
+  eexists. erewrite exec_list_cons_exc; [reflexivity|]. run1. change (enc_dat []) with (enc_dat (@nil Q)). rewrite E_max_empty. run1. reflexivity.
+Qed.
